@@ -53,6 +53,8 @@ type Case struct {
 	SkipNodes, SkipWays, SkipRelations bool
 	// Headerless: the stream starts at the first data block (a resumed scan).
 	Headerless bool
+	// DataEOF: the reader hands out its final bytes together with io.EOF.
+	DataEOF bool
 }
 
 type chunkReader struct {
@@ -61,6 +63,8 @@ type chunkReader struct {
 	every int
 	class int
 	n     int
+	// dataEOF: the last Read returns its bytes together with io.EOF
+	dataEOF bool
 }
 
 func (r *chunkReader) Read(p []byte) (int, error) {
@@ -80,6 +84,9 @@ func (r *chunkReader) Read(p []byte) (int, error) {
 	}
 	copy(p, r.data[:n])
 	r.data = r.data[n:]
+	if r.dataEOF && len(r.data) == 0 {
+		return n, io.EOF // the final bytes together with io.EOF, as the io.Reader contract allows
+	}
 	return n, nil
 }
 
@@ -191,7 +198,7 @@ func run(c Case) error {
 	if c.Headerless {
 		data = data[enc.Header.End:]
 	}
-	r := &chunkReader{data: data, chunk: c.Chunk, every: c.ReadEvery, class: c.ReadDelay}
+	r := &chunkReader{data: data, chunk: c.Chunk, every: c.ReadEvery, class: c.ReadDelay, dataEOF: c.DataEOF}
 	s := osmpbf.New(context.Background(), r, c.Procs)
 	s.SkipNodes, s.SkipWays, s.SkipRelations = c.SkipNodes, c.SkipWays, c.SkipRelations
 	s.FilterNode = func(n *osm.Node) bool { return hook(int64(n.ID)) }
@@ -288,6 +295,7 @@ func TestSchedules(t *testing.T) {
 				c.SkipRelations = rapid.Bool().Draw(t, "sr")
 			}
 			c.Headerless = rapid.IntRange(0, 4).Draw(t, "headerless") == 0
+			c.DataEOF = rapid.IntRange(0, 3).Draw(t, "dataEOF") == 0
 			return c
 		},
 		Check: check,
